@@ -210,7 +210,10 @@ func (sm *stateMachine) notifyInSessionTime() {
 }
 
 func (sm *stateMachine) handleDisconnectState(s *session) {
-	doOnLogout := s.IsLoggedOn()
+	// The logon may have been announced by a Logon whose processing failed afterwards (a store error while
+	// counting it): the state is still logonState then.
+	doOnLogout := s.IsLoggedOn() || s.logonNotified
+	s.logonNotified = false
 
 	switch s.State.(type) {
 	case logoutState:
